@@ -372,7 +372,7 @@ impl<'a, Msg> Iterator for NetworkIter<'a, Msg> {
             }),
             NetworkIter::UnorderedNonDuplicating(active, it) => {
                 if let Some((env, count)) = active {
-                    // invariant: count > 1
+                    // invariant: count > 0 (number of copies still to be yielded)
                     let env = *env; // to avoid holding a reference inside active
                     *count -= 1;
                     if *count == 0 {
@@ -387,23 +387,31 @@ impl<'a, Msg> Iterator for NetworkIter<'a, Msg> {
                         msg: &env.msg,
                     };
                     if *count > 1 {
-                        *active = Some((env, *count));
+                        // one copy is yielded now, the others by the branch above
+                        *active = Some((env, *count - 1));
                     }
                     env
                 })
             }
             NetworkIter::Ordered(active, it) => {
                 if let Some((src, dst, messages, index)) = active {
-                    let msg = messages.get(*index).unwrap(); // messages.len() > 1
-                    return Some(Envelope {
+                    // `index` is the position of the next message of the active channel
+                    let env = Envelope {
                         src: *src,
                         dst: *dst,
-                        msg,
-                    });
+                        msg: messages.get(*index).unwrap(),
+                    };
+                    *index += 1;
+                    if *index >= messages.len() {
+                        *active = None;
+                    }
+                    return Some(env);
                 }
                 it.next().map(|(&(src, dst), messages)| {
-                    let msg = messages.front().unwrap(); // messages.len() > 1
-                    *active = Some((src, dst, messages, 0));
+                    let msg = messages.front().unwrap(); // channels are never empty
+                    if messages.len() > 1 {
+                        *active = Some((src, dst, messages, 1));
+                    }
                     Envelope { src, dst, msg }
                 })
             }
